@@ -20,6 +20,7 @@ var c08WellFormed = []string{
 	"/{r: /a|c/}", "/{r: /a|c/}/b", "/a-{t}", "/a+b{c}", "/p(q{c}", "/{g: /(a|c)+/}/b", "/{g: /(a|c)+/}",
 	"/{m: **}", "/{n: **}", "/{m: **, capture: 2}", "/{**}", "/{m: **}/x", "/{n: **}/y", "/{m: **}/x/{k: **}",
 	"/a/{m: **}", "/a/{n: **}", "/a/{m: **}/c", "/a/{n: **}/c", "/{m: **}/?b", "/{y: /a/, z: /b/}", "/a/b/c", "/a/b/?c",
+	"/{**}/x", "/a/{**}/c", "/{**}/x/{k: **}", "/{**}/?b",
 	"/{p}/{q}", "/{p}/{m: **}", "/a/?{m: **}", "/a/?{n: **}", "/x.y", "/{p}.{q}", "/a/{p}/?c", "/a/{q}/c", "/{m: **}/?{p}",
 }
 
